@@ -15,6 +15,7 @@ def base_streams(rnd, n):
         kind = rnd.choice(["valid", "valid", "invalid", "appclose", "appsend", "bighdr"])
         hs = scen.HANDSHAKE
         app = {}
+        bad_off = None
         if kind == "bighdr":
             # header block around the 16 KiB limit, terminated or not
             target = rnd.choice([16380, 16383, 16384, 16385, 16390])
@@ -28,15 +29,18 @@ def base_streams(rnd, n):
         if kind == "invalid":
             bad = rnd.choice([E(3, b"x"), E(1, b"\xff\xfe"), E(0, b"zz"), E(9, b"p" * 126), b"\x81\xff" + b"\xff" * 8,
                               E(1, b"ab", rsv=4), E(8, b"\x03"), E(8, b"\x03\xed"), E(1, b"m", mask_key=b"abcd"),
-                              E(1, b"\xe2\x82", fin=0) + E(0, b"\x41")])
+                              E(1, b"\xe2\x82", fin=0) + E(0, b"\x41"),
+                              # a truncated multi-byte character followed by 7-bit text, in one frame and across a Ping
+                              E(1, b"caf\xc3e au lait"), E(1, b"\xf0\x9f\x98 ok"), E(1, b"x\xe2\x82", fin=0) + E(9, b"p") + E(0, b"abc")])
             cut = rnd.randrange(0, len(frames) + 1)
+            bad_off = len(hs) + len(scen.render(frames[:cut]))
             body = scen.render(frames[:cut]) + bad + scen.render(frames[cut:])
         elif kind == "appclose":
             app = {rnd.randrange(0, 6): [("close", 1000, b"bye")]}
             body += E(8, ref6455.close_payload(1000, b"bye"))
         elif kind == "appsend":
             app = {rnd.randrange(2, 7): [("text", b"hi", True)], rnd.randrange(2, 7): [("ping", b"q")]}
-        out.append((kind, hs, body, app))
+        out.append((kind, hs, body, app, bad_off))
     return out
 
 
@@ -63,7 +67,7 @@ def run(rep, info, model, tier, seed):
     nbase = 60 if tier == "quick" else 200
     nrand = 12 if tier == "quick" else 40
     groups = []
-    for kind, hs, body, app in base_streams(rnd, nbase):
+    for kind, hs, body, app, bad_off in base_streams(rnd, nbase):
         stream = hs + body
         ks = scen.keys(rnd, 14)
         variants = [[stream[i:i + 65536] for i in range(0, len(stream), 65536)]]
@@ -75,6 +79,10 @@ def run(rep, info, model, tier, seed):
         # every single cut position in the frame part (bounded)
         for p in range(len(hs) - 6, min(len(stream), len(hs) + 60)):
             if 0 < p < len(stream):
+                variants.append([stream[:p], stream[p:]])
+        if bad_off is not None:
+            # ... and every single cut position inside and around the violating frame(s)
+            for p in range(max(1, bad_off - 2), min(len(stream), bad_off + 30)):
                 variants.append([stream[:p], stream[p:]])
         groups.append((kind, [make(hs, body, [c for c in v if c], app, ks) for v in variants]))
         rep.count("stream_kind", kind)
